@@ -729,3 +729,16 @@ CASES["C12"] += [
 CASES["C12"] += [
     ("reintroduce F-35 (round-trip chain replaced by the intermediate)", "mutant", "snaxc/transforms/realize_memref_casts.py", "@revert:bb82659~1", "", ["C12.chain"]),
 ]
+
+CASES["C19"] += [
+    ("from_affine_map: only the top-level kind is tested", "mutant", "snaxc/ir/dart/affine_transform.py", "            for expr in result.dfs():\n                if isinstance(expr, AffineBinaryOpExpr):", "            for expr in [result]:\n                if isinstance(expr, AffineBinaryOpExpr):", ["C19.transform-linear"]),
+    ("from_affine_map: mod no longer refused", "mutant", "snaxc/ir/dart/affine_transform.py", "                        AffineBinaryOpKind.CeilDiv,\n                        AffineBinaryOpKind.Mod,\n", "                        AffineBinaryOpKind.CeilDiv,\n", ["C19.transform-linear"]),
+]
+
+CASES["C08"] += [
+    ("launch path packs shifts most-significant first", "mutant", GEMMX, "                shift_bitlist = list(pack_bitlist(shifts[j : j + 4][::-1], (24, 16, 8, 0)))", "                shift_bitlist = list(pack_bitlist(shifts[j : j + 4], (24, 16, 8, 0)))", ["C08.shift-packing"]),
+    ("twin: setup path packs with ascending offsets", "twin", GEMMX, "                    shift_bitlist = list(pack_bitlist(shifts[i : i + 4][::-1], (24, 16, 8, 0)))", "                    shift_bitlist = list(pack_bitlist(shifts[i : i + 4], (0, 8, 16, 24)))", []),
+]
+CASES["C05"] += [
+    ("destination layout rebuilt without its offset", "mutant", DMAF, "            tsl_dest = TiledStridedLayoutAttr(TiledStridedLayout.from_strides(strides, tile_bounds, offset))", "            tsl_dest = TiledStridedLayoutAttr(TiledStridedLayout.from_strides(strides, tile_bounds))", ["C05.layout-offset", "C05.mirror"]),
+]
